@@ -53,6 +53,9 @@ def cases(tier, seed, PROP):
         for k in range(60 if tier == 'quick' else 1200):
             yield {'stratum': 'retry-after-rejected-call', 'index': k, 'kind': 'retry'}
     if PROP == 'C07':
+        # one name used by objects of several TYPES, referred to through attributes that accept an object of any type
+        for k in range(12 if tier == 'quick' else 200):
+            yield {'stratum': 'same-name-across-types', 'index': k, 'kind': 'across-types'}
         yield {'stratum': 'kf-regression', 'index': 0, 'kind': 'kf-c07-across-sets'}
         # identities changed between two writes (rename, another origin): references must follow
         for k in range(60 if tier == 'quick' else 1500):
@@ -110,6 +113,21 @@ def _build_spec(case, PROP, r):
             sp['ops'].append({'op': 'comment', 'name': 'CM-NA', 'attrs': {'text': ['ascii', txt]}})
         else:
             sp['ops'].append({'op': 'zone', 'name': 'Z-NA', 'set_name': 'SET-' + txt, 'attrs': {}})
+        return sp
+    if k == 'across-types':
+        sp = gen.minimal(r.choice([512, 8192]))
+        sp['write'] = {'output_chunk_size': 2 ** 16}
+        first = len(sp['ops'])
+        types = r.sample(['tool', 'process', 'zone', 'equipment', 'axis', 'long_name', 'parameter'], r.choice([2, 3, 4]))
+        for t in types:
+            sp['ops'].append({'op': t, 'name': 'SHARED-NAME', 'attrs': ({'values': [1.5]} if t == 'parameter' else {})})
+        tgt = first + r.randrange(len(types))
+        sp['ops'].append({'op': 'computation', 'name': 'COMP', 'attrs': {'source': {'$ref': tgt}, 'values': [1.0]}})
+        sp['ops'].append({'op': 'group', 'name': 'GRP', 'attrs': {'object_list': [{'$ref': first + j} for j in range(len(types))]}})
+        ch = next(i for i, o in enumerate(sp['ops']) if o['op'] == 'channel')
+        sp['ops'][ch]['attrs']['source'] = {'$ref': first + r.randrange(len(types))} if False else sp['ops'][ch]['attrs'].get('source')
+        if sp['ops'][ch]['attrs'].get('source') is None:
+            sp['ops'][ch]['attrs'].pop('source', None)
         return sp
     if k == 'same-named':
         n = case['n']
@@ -470,6 +488,8 @@ def run_case(case, PROP):
         bump('file-header-given-as-object')
     if run.data is not None and any(l.get('fh_identifier') not in (None, '0') for l in sp.get('lfs', [])):
         bump('file-header-identifier-chosen')
+    if case['kind'] == 'across-types' and run.data is not None:
+        bump('same-name-across-types')
     if case['kind'] == 'same-named' and run.data is not None:
         bump('copy-number>=128' if case['n'] > 128 else 'many-same-named-small')
     if case['kind'] == 'setnames' and run.data is not None:
